@@ -144,7 +144,7 @@ fn typed_list(r: &mut Rng, op: &str, len: usize) -> Vec<RVal> {
 }
 
 fn part_broadcast(ctx: &Ctx, sink: &mut Sink) {
-    let n = ctx.budget(9000, 300000);
+    let n = ctx.budget(120_000, 2_000_000);
     let sess = Sess::new();
     for i in 0..n {
         if !ctx.mine(i) {
@@ -210,7 +210,7 @@ fn part_broadcast(ctx: &Ctx, sink: &mut Sink) {
         }
     }
     // dot comparisons never broadcast: one boolean equal to the C12 relation
-    let n2 = ctx.budget(1500, 40000);
+    let n2 = ctx.budget(15_000, 200_000);
     for i in 0..n2 {
         if !ctx.mine(i) {
             continue;
